@@ -1159,10 +1159,18 @@ func (p *PubSub) handleDeadPeers() {
 		q.Close()
 		delete(p.peers, pid)
 
-		p.clearPeerFromTopicsState(pid)
+		connected := p.host.Network().Connectedness(pid) == network.Connected
+		if !connected {
+			// What a peer told us about its subscriptions arrived on its own
+			// stream and stays valid while that stream lives; it is dropped in
+			// onClosedIncomingStream. Forgetting it here while the peer is still
+			// connected would lose its subscriptions for good: it has no reason
+			// to announce them again when only our outbound stream is replaced.
+			p.clearPeerFromTopicsState(pid)
+		}
 		p.rt.OnClosedOutboundStream(pid)
 
-		if p.host.Network().Connectedness(pid) == network.Connected {
+		if connected {
 			backoffDelay, err := p.deadPeerBackoff.updateAndGet(pid)
 			if err != nil {
 				p.logger.Debug("error updating backoff", "err", err, "peer", pid)
